@@ -73,10 +73,10 @@ func ImportBlocks(
 		return e.Wrap(err)
 	}
 
-	if int64(len(ims)) < batchlimit {
-		if err := saveImporters(ctx, ims, mergeBlockWriterDatabasesf); err != nil {
-			return e.WithMessage(err, "save importers")
-		}
+	// NOTE the importers of the last batch are not yet saved, whether the
+	// batch is full or not.
+	if err := saveImporters(ctx, ims, mergeBlockWriterDatabasesf); err != nil {
+		return e.WithMessage(err, "save importers")
 	}
 
 	if setLastVoteproofsFunc != nil {
